@@ -89,4 +89,26 @@ var configs = map[string]propCfg{
 			"Non-trivial = a rewrite was proposed; distinct by pattern with letters renamed in order of appearance.",
 		Assumptions: []string{"patterns longer than 60 bytes are outside the checker's domain", "equivalence is tested on a small-scope exhaustive subject set, not proven"},
 	},
+	"C17": {
+		Quick:    tierCfg{Shards: 1, Checks: 60, Limit: qLimit},
+		Thorough: tierCfg{Shards: 1, Checks: 600, Limit: tLimit},
+		Floor:    150,
+		NeedBins: true,
+		Rule: "complete enumeration (exhaustive) of: every rule group and rule of checkers/rules/rules.go, re-compiled in memory with the pipeline of precompile.go and compared structurally with rulesdata.PrecompiledRules; " +
+			"the bijection rule group <-> registered embedded checker with equal name/tags/summary/before/after/note; every row of docs/overview.md against the live registry and the default-selection rule; the output of `doc` of both CLIs; " +
+			"and a behavioural differential (engine loaded from source vs engine loaded from the shipped IR) over every file of the example corpus. A generated self-test (rapid) applies random one-character edits to string literals of the rule source in memory and requires the comparator to notice. " +
+			"Non-trivial = every compared group / rule / checker / documentation row / corpus file with reports; distinct by name.",
+		Assumptions: []string{"structural equality decides; a re-formatted but equal data file is not an alarm", "irconv/ruleguard of the module cache are the compilers of record"},
+	},
+	"C18": {
+		Quick:    tierCfg{Shards: 8, Checks: 60, Limit: qLimit},
+		Thorough: tierCfg{Shards: 16, Checks: 1500, Limit: tLimit},
+		Floor:    50,
+		Rule: "sequences of 1-5 rule files from {valid (1-3 groups with drawn tags incl. experimental, each reporting a unique marker), dangling symlink, directory matching the glob, syntax error, DSL error, unloadable import, empty}, given as an explicit list or a glob, optionally with a pattern that matches nothing; " +
+			"failOn from {empty, dsl, import, all, combinations, unknown values}, the legacy failOnError flag, enable/disable lists over group names, #tags and unknown names. The dynamic-rules checker is constructed in-process through linter.NewChecker and run on a target with one call per group. " +
+			"Oracle = reference model written from the statement: init fails iff a listed failure class occurs / a pattern matches nothing / failOn has an unknown value; otherwise exactly the markers of the enabled groups of the valid files are reported, independent of where faulty files sit, and no 'execution error'. " +
+			"Cells the statement leaves open accept both outcomes (unreadable file under failOn=dsl|import; experimental group enabled by name only; empty enable list). " +
+			"Non-trivial = a faulty and a valid file in one sequence, or both enable and disable lists given; distinct by the whole case.",
+		Assumptions: []string{"rule files are loaded with cwd inside a module whose graph contains github.com/quasilyte/go-ruleguard/dsl (as real users must)"},
+	},
 }
